@@ -401,6 +401,23 @@ CLAIMED['C04']['text'] = (
     'explicit drives is wrapped from outside; holds_C04 on its trace, corr_C04 = the model machine (fed the recorded oracle answers) '
     'reproduces the exact bounds/flag sequence of the root edit. Found D23, D24, D25, D41 (all repaired).')
 CLAIMED['C04']['note'] = CLAIMED['C04']['note'].replace(' Open findings: D36, D41.', ' Open finding: D36.')
+
+CLAIMED['C05']['text'] = (
+    'Theorems over small-step API machines for every edit class (ConstantCost, KeyValuePair, FixedLengthSequence under '
+    'repeat_until_tightened, EditDistance/StringEdit with the side-effecting bounds() and the quiet/status reads, EditCollection/'
+    'FixedKeyDictNodeEdit with the lazy iterator, _cost memo and valid, MultiSetEdit + WeightedBipartiteMatcher with `matching` forcing '
+    '_make_edges_distinct itself): class lemmas C05_const/_sum/_fixed_len/_edit_distance/_collection/_multiset under the contract '
+    'AContract; C05_invariant (structural invariant closed under every call incl. calls on listed sub-edits); closing induction '
+    'C05_model: for EVERY oracle (make_distinct counts and solver assignment keyed by (from_nodes, to_nodes)) and every pair of documents '
+    'in the domain of initA (all node kinds and all three dictionary strategies; multiset elements pairwise different - D36 outside; '
+    'FixedKeyDict budget guard computed) there is one value v such that every history of public calls (any order, on the edit and on '
+    'listed sub-edits, unbounded length) under both status settings raises nothing, answers every call and completes with final cost v; '
+    'C05_quiet_irrelevant; C05_final_cost_partial: v = cost of the big-step script for documents without DictNode/MultiSetNode. Not '
+    'proved: final cost = script cost for MultiSetEdit (oracle bridge between path-keyed and node-keyed oracles), search classes (no '
+    'model); the final SCRIPT is compared by correspondence only (corr_C05: per-call outcomes + final nested script, oracle recorded per '
+    'run), incl. a fresh-process/same-process family against process-global state; colour is covered by CLI runs only. holds_C05 also '
+    'requires, for every history, equal final costs under quiet and non-quiet, final cost = sum of the leaf edits, and the '
+    'get_all_edits / edited_cost views on fresh trees to agree for both settings.')
 NOT_YET = 'model and theorem not completed yet (DESIGN.md section 7)'
 NA = {}
 
